@@ -49,7 +49,9 @@ class Notifications(object):
             # new block height
             return
         touched = tmp.pop(height)
-        for old in [h for h in tmp if h <= height]:
+        # Mempool sets are relative to the previous one so none may be dropped, including
+        # any from a refresh at a greater height that a reorg has since undone
+        for old in list(tmp):
             touched.update(tmp.pop(old))
         for old in [h for h in tbp if h <= height]:
             touched.update(tbp.pop(old))
@@ -68,6 +70,9 @@ class Notifications(object):
         await self._maybe_notify()
 
     async def on_block(self, touched, height):
+        # Sets pending at greater heights are from blocks since undone in a reorg
+        for old in [h for h in self._touched_bp if h > height]:
+            touched.update(self._touched_bp.pop(old))
         self._touched_bp.setdefault(height, set()).update(touched)
         self._highest_block = height
         await self._maybe_notify()
